@@ -219,8 +219,14 @@ impl Sim {
             }
             match repo.check(CheckOptions::default().read_data(read_data)) {
                 Ok(res) => {
-                    if let Err(e) = res.is_ok() {
-                        findings.push((format!("check-reports-error:{}", classify(&etext(&e))), etext(&e)));
+                    let errs = common::check_errors(&res);
+                    if std::env::var("VERIF_VERBOSE").is_ok() {
+                        for (l, e) in &res.0 {
+                            eprintln!("check: {l:?}: {e}");
+                        }
+                    }
+                    if let Some(first) = errs.first() {
+                        findings.push((format!("check-reports-error:{}", classify(first)), format!("check reports {} error(s): {}", errs.len(), errs.join(" | "))));
                     }
                 }
                 Err(e) => findings.push((format!("check-failed:{}", classify(&etext(&e))), etext(&e))),
